@@ -27,8 +27,9 @@ KANI = {
     'int_div_dword': {
         'package': 'dashu-int', 'target': 'integer/src/div/mod.rs', 'file': 'int_div_dword.rs',
         'harnesses': {
-            'vk_dd_fast_div_len%d_d%d' % (n, k): {'kind': 'bounded',
-                                                 'bound': 'len <= 5, 3 concrete divisors, 4 symbolic bits per word'}
+            'vk_dd_fast_div_len%d_d%d' % (n, k): {
+                'kind': 'bounded', 'tier': 'quick' if n <= 3 else 'thorough',
+                'bound': 'len <= 5, 3 concrete divisors, palette words with 4 (len 5: 2) symbolic bits'}
             for n in (2, 3, 4, 5) for k in (0, 1, 2)
         },
     },
